@@ -482,6 +482,7 @@ func (e *Explore) Run(c *fw.Ctx) {
 // step executes one transition; returns the new history if it leads to a new, live, non-violating state.
 func (e *Explore) step(c *fw.Ctx, start string, hist []Op, op Op, seen map[uint64]struct{}) []Op {
 	nh := append(append(make([]Op, 0, len(hist)+1), hist...), op)
+	c.CurCase(func() *fw.Case { return &fw.Case{Kind: e.Kind, S: fw.Strs(start), Ops: opsToQS(nh), N: e.caseN} })
 	w := ReplayCap(start, nh, e.MLCap)
 	c.Eval()
 	c.R.Transitions++
